@@ -55,7 +55,24 @@ func scenario(bodies []string, life string, bounds []int) *vexp.Scenario {
 					x.Fail("harness", "spawn %s: %v", n, err)
 				}
 			}
+			// an actor held inside a handler, so that a backlog builds up in its mailbox (queue growth under concurrent senders)
+			released, flooded, floodSeen := false, 0, 0
+			hasFlood := strings.Contains(strings.Join(bodies, "|"), "flood")
+			if hasFlood {
+				w.SpawnRoot(&vsys.Script{Name: "h", OnMsg: func(a *vsys.Act, ctx vivid.ActorContext, m vsys.Msg) {
+					switch {
+					case m.ID == "hold":
+						vrt.Block(vrt.KYield, 0, "held handler of /h", func() bool { return released })
+					case strings.HasPrefix(m.ID, "flood"):
+						floodSeen++
+					}
+				}})
+			}
 			vrt.QuiesceNoTimers()
+			if hasFlood {
+				w.Sys.Tell(w.Ref("/h"), vsys.Msg{ID: "hold"})
+				vrt.QuiesceNoTimers()
+			}
 			sys := w.Sys
 			refA, refK, refF := w.Ref("/a"), w.Ref("/k"), w.Ref("/f")
 			shared := w.Ref("/a") // a reference object shared by several threads
@@ -68,6 +85,13 @@ func scenario(bodies []string, life string, bounds []int) *vexp.Scenario {
 					}
 				case "kill":
 					sys.Kill(refA, false, "api")
+				case "flood":
+					// 140 messages per thread: two threads cross the queue's first growth boundary (256) together
+					rh := w.Ref("/h")
+					for i := 0; i < 140; i++ {
+						sys.Tell(rh, vsys.Msg{ID: fmt.Sprintf("flood%d.%d", ti, i)})
+						flooded++
+					}
 				case "tell":
 					sys.Tell(shared, vsys.Msg{ID: "hello"})
 					sys.Tell(refF, vsys.Msg{ID: "hello"})
@@ -105,6 +129,13 @@ func scenario(bodies []string, life string, bounds []int) *vexp.Scenario {
 				sys.Tell(refF, vsys.Msg{ID: "boom"})
 			}
 			vrt.Quiesce()
+			if hasFlood {
+				released = true
+				vrt.Quiesce()
+				if floodSeen != flooded {
+					x.Fail("no-message-lost-under-concurrent-senders", "%d messages were sent to /h by concurrent threads while it was busy, it processed %d of them", flooded, floodSeen)
+				}
+			}
 			// ---------------- oracle: tree consistency ----------------
 			sysd := actor.VerifSys(sys)
 			reg := map[string]bool{}
@@ -185,6 +216,9 @@ func build(tier string) []*vexp.Scenario {
 	for _, tr := range [][]string{{"spawn", "kill", "tell"}, {"ask", "kill", "find"}, {"es", "es", "kill"}, {"fut", "fut", "ask"}, {"spawn", "spawn", "spawn"}, {"ref", "tell", "kill"}} {
 		out = append(out, scenario(tr, "dying", wide))
 	}
+	// concurrent senders pushing one mailbox queue across its growth boundary
+	out = append(out, scenario([]string{"flood", "flood"}, "dying", []int{0}))
+	out = append(out, scenario([]string{"flood", "flood", "tell"}, "failing", []int{0}))
 	return out
 }
 
